@@ -128,8 +128,8 @@ func (b *Batch) writeMain(names []string) error {
 		obj[s.Name] = s.Object
 	}
 	for _, n := range names {
-		fmt.Fprintf(&sb, "\tengbrt.Register(&engbrt.Parser{Name: %q, Object: %v, New: %s.VNew, Init: %s.VInit, Parse: %s.VParse, Action: %s.VAction, Translate: %s.VTranslate, Trace: %s.VTrace, ErrAcc: %s.VErrAcc,\n\t\tSetHooks: func(n func(int) (int, int), r func(int)) { %s.HookNext = n; %s.HookRec = r }})\n",
-			n, obj[n], n, n, n, n, n, n, n, n, n)
+		fmt.Fprintf(&sb, "\tengbrt.Register(&engbrt.Parser{Name: %q, Object: %v, New: %s.VNew, Init: %s.VInit, Parse: %s.VParse, Action: %s.VAction, Translate: %s.VTranslate, Consts: %s.VConsts, Trace: %s.VTrace, ErrAcc: %s.VErrAcc,\n\t\tSetHooks: func(n func(int) (int, int), r func(int)) { %s.HookNext = n; %s.HookRec = r }})\n",
+			n, obj[n], n, n, n, n, n, n, n, n, n, n)
 	}
 	sb.WriteString("\tengbrt.Main()\n}\n")
 	return os.WriteFile(filepath.Join(b.Dir, "main.go"), []byte(sb.String()), 0o644)
